@@ -1170,7 +1170,43 @@ def inline_new_constants (tree, inv):
         if isinstance(s, ast.Assign) and len(s.targets) == 1 and isinstance(s.targets[0], ast.Name) and s.targets[0].id not in known_c \
            and (_literal(s.value) or (isinstance(s.value, ast.Tuple) and _literal(s.value, 0, imported))):
           cconsts[(c.name, s.targets[0].id)] = s.value
-  if not consts and not cconsts: return 0
+  # precompiled struct objects: NAME = struct.Struct(<literal>) at module level, NAME new -> NAME.unpack_from(b, o) is
+  # struct.unpack_from(<literal>, b, o), NAME.size is struct.calcsize(<literal>)
+  structs = {}
+  for s in tree.body:
+    if isinstance(s, ast.Assign) and len(s.targets) == 1 and isinstance(s.targets[0], ast.Name) and s.targets[0].id not in known_mod and counts.get(s.targets[0].id) == 1 \
+       and isinstance(s.value, ast.Call) and isinstance(s.value.func, ast.Attribute) and s.value.func.attr == 'Struct' and isinstance(s.value.func.value, ast.Name) and s.value.func.value.id == 'struct' \
+       and len(s.value.args) == 1 and not s.value.keywords:
+      fmt = s.value.args[0]
+      if isinstance(fmt, ast.Name) and fmt.id in consts: fmt = consts[fmt.id]
+      if _literal(fmt): structs[s.targets[0].id] = fmt
+  if structs:
+    class S(ast.NodeTransformer):
+      def __init__ (self): self.shadow = [set()]
+      def visit_FunctionDef (self, node):
+        self.shadow.append(self.shadow[-1] | local_names(node)); self.generic_visit(node); self.shadow.pop(); return node
+      visit_AsyncFunctionDef = visit_FunctionDef
+      def visit_Call (self, node):
+        nonlocal n
+        self.generic_visit(node)
+        f = node.func
+        if isinstance(f, ast.Attribute) and isinstance(f.value, ast.Name) and f.value.id in structs and f.value.id not in self.shadow[-1] and f.attr in ('unpack', 'unpack_from', 'pack', 'pack_into', 'iter_unpack'):
+          n += 1
+          node.func = ast.copy_location(ast.Attribute(value=ast.copy_location(ast.Name(id='struct', ctx=ast.Load()), f), attr=f.attr, ctx=ast.Load()), f)
+          node.args = [ast.copy_location(copy.deepcopy(structs[f.value.id]), node)] + list(node.args)
+        return node
+      def visit_Attribute (self, node):
+        nonlocal n
+        self.generic_visit(node)
+        if isinstance(node.ctx, ast.Load) and node.attr == 'size' and isinstance(node.value, ast.Name) and node.value.id in structs and node.value.id not in self.shadow[-1]:
+          n += 1
+          return ast.copy_location(ast.Call(func=ast.Attribute(value=ast.Name(id='struct', ctx=ast.Load()), attr='calcsize', ctx=ast.Load()), args=[copy.deepcopy(structs[node.value.id])], keywords=[]), node)
+        return node
+    sv = S()
+    for s in tree.body:
+      if isinstance(s, (ast.ClassDef,) + FUNC): sv.visit(s)
+    ast.fix_missing_locations(tree)
+  if not consts and not cconsts: return n
   class R(ast.NodeTransformer):
     def __init__ (self, cls): self.cls = cls; self.shadow = [set()]
     def visit_FunctionDef (self, node):
